@@ -66,6 +66,8 @@ func IDs() Spec {
 		fix(createClass(A, "C", 20)), fix(createClass(A, "BIO", 20)), fix(createClass(B, "KSH", 25)),
 		fix(createClass(D, "C", 1)),   // fee below the class fee
 		fix(createClass(A, "XX", 20)), // unknown credit type
+		fix(Msg("gov:add-credit-type ZZ", &basetypes.MsgAddCreditType{Authority: g, CreditType: &basetypes.CreditType{Abbreviation: "ZZ", Name: "zz", Unit: "u", Precision: 6}})),
+		fix(createClass(B, "ZZ", 20)), // a credit type added on chain: numbering starts at 1
 	}
 	proj := func(signer sdk.AccAddress, k int, refID string) E {
 		name := fmt.Sprintf("CreateProject(%s,class#%d,ref=%q)", n(signer), k, refID)
